@@ -51,6 +51,9 @@ type c10Fix struct {
 	seq      int
 	by       *hdClient
 	byPub    string
+	offPub   string // the session without connection: public id, resume id, numeric id in the digest
+	offPriv  string
+	offSid   uint64
 	fix      map[int]*c10StateFix
 	apiRes   chan int
 	pending  string
@@ -121,16 +124,18 @@ func (f *c10Fix) helloInternal(c *hdClient, features []string) (string, string) 
 	return f.hello(c, h)
 }
 
-func (f *c10Fix) join(c *hdClient, room string, perms []string) {
+func (f *c10Fix) join(c *hdClient, room string, perms []string) string {
 	f.sys.backend.mu.Lock()
 	f.sys.backend.roomReply = hdRoomReply{Permissions: perms, HasPerm: perms != nil}
 	f.sys.backend.mu.Unlock()
 	f.seq++
-	m := f.request(c, fmt.Sprintf("fxjoin%d", f.seq), map[string]interface{}{"type": "room", "room": map[string]interface{}{"roomid": room, "sessionid": fmt.Sprintf("c10-rs-%d", f.seq)}})
+	rs := fmt.Sprintf("c10-rs-%d", f.seq)
+	m := f.request(c, fmt.Sprintf("fxjoin%d", f.seq), map[string]interface{}{"type": "room", "room": map[string]interface{}{"roomid": room, "sessionid": rs}})
 	if m == nil || m.Type != "room" {
 		f.t.Fatalf("C10 fixture: join answered with %+v", m)
 	}
 	c.take()
+	return rs
 }
 
 func (f *c10Fix) drop(c *hdClient) {
@@ -173,10 +178,60 @@ func (f *c10Fix) ensureBystander() {
 	c.take()
 }
 
+// A member of the bystander's room whose connection was interrupted: the session stays
+// (housekeeping does not run in this hub, so it never expires) and everything sent to
+// it is stored for the resume.
+func (f *c10Fix) ensureOffline() {
+	if f.offPub != "" {
+		if sess := f.sys.hub.GetSessionByPublicId(f.offPub); sess != nil && sess.GetRoom() != nil {
+			if cs, ok := sess.(*ClientSession); ok && cs.GetClient() == nil {
+				return
+			}
+		}
+		f.t.Fatalf("C10 fixture: the session without connection is gone or changed")
+	}
+	c := f.newConn()
+	f.offPub, f.offPriv = f.helloV1(c, c10OffUser)
+	rs := f.join(c, c10RoomId, nil)
+	f.sys.settle()
+	f.drop(c)
+	f.sys.settle()
+	f.offSid = f.sys.sidOf(f.offPub)
+	// the backend says it is in the call (so that messages to the call reach it)
+	user := map[string]interface{}{"sessionId": rs, "inCall": 7}
+	body, _ := json.Marshal(map[string]interface{}{"type": "incall", "incall": map[string]interface{}{"incall": 7,
+		"changed": []interface{}{user}, "users": []interface{}{user}}})
+	if st := f.sys.roomApi(0, 0, c10RoomId, body); st != 200 {
+		f.t.Fatalf("C10 fixture: incall request answered with %d", st)
+	}
+	f.sys.settle()
+	sess := f.sys.hub.GetSessionByPublicId(f.offPub)
+	if sess == nil || sess.GetRoom() == nil || f.offSid == 0 {
+		f.t.Fatalf("C10 fixture: the session without connection was not kept")
+	}
+	if !sess.GetRoom().IsSessionInCall(sess) {
+		f.t.Fatalf("C10 fixture: the session without connection is not in the call")
+	}
+	if f.by != nil {
+		f.by.take()
+	}
+}
+
+// number of messages stored for the session without connection (as the digest counts them)
+func (f *c10Fix) offPending(d *hdDigest) int {
+	for i := range d.Sessions {
+		if d.Sessions[i].Sid == f.offSid {
+			return d.Sessions[i].Pending
+		}
+	}
+	return -1
+}
+
 var c10AllPerms = []string{"publish-audio", "publish-video", "publish-screen", "publish-media", "control", "transient-data"}
 
 func (f *c10Fix) ensure(st int) *c10StateFix {
 	f.ensureBystander()
+	f.ensureOffline()
 	if sf := f.fix[st]; sf != nil && !sf.conn.isClosed() {
 		return sf
 	}
@@ -278,9 +333,17 @@ func (f *c10Fix) ensurePending(sf *c10StateFix) {
 	sf.conn.take()
 }
 
-func (f *c10Fix) digestText() string {
-	b, _ := json.Marshal(f.sys.digest())
-	return string(b)
+// the digest without the queue of the session without connection, and the length of that queue
+func (f *c10Fix) digestText() (string, int) {
+	d := f.sys.digest()
+	n := f.offPending(d)
+	for i := range d.Sessions {
+		if d.Sessions[i].Sid == f.offSid {
+			d.Sessions[i].Pending = 0
+		}
+	}
+	b, _ := json.Marshal(d)
+	return string(b), n
 }
 
 // ---- projections -----------------------------------------------------------------------------------------
@@ -391,7 +454,71 @@ func c10Oracles(doc *vj, subst *strings.Replacer) []string {
 
 // ---- one step -------------------------------------------------------------------------------------------------
 
+// the session without connection resumes on a new connection, receives what was stored for
+// it, and loses the connection again
+func (f *c10Fix) runResume(s *c10Step, emitStart func()) {
+	f.ensureBystander()
+	f.ensureOffline()
+	f.sys.settle()
+	f.by.take()
+	before, offBefore := f.digestText()
+	emitStart()
+	c := f.newConn()
+	f.seq++
+	c.send([]byte(fmt.Sprintf(`{"id":"fxresume%d","type":"hello","hello":{"version":"1.0","resumeid":%q}}`, f.seq, f.offPriv))) // nolint
+	f.sync(c)
+	f.sys.settle()
+	msgs, closed := c.take()
+	rev := strings.NewReplacer(f.offPub, c10Oid, f.byPub, c10Bid, c10RoomId, c10Room)
+	s.Alive, s.Closed = true, closed
+	s.Replies = []string{}
+	resumed := false
+	for _, m := range msgs {
+		if bytes.Contains(m, []byte(`"id":"hdsync`)) {
+			continue
+		}
+		var sm ServerMessage
+		if sm.UnmarshalJSON(m) == nil && sm.Type == "hello" && sm.Hello != nil && sm.Hello.SessionId == f.offPub {
+			resumed = true
+		}
+		s.Replies = append(s.Replies, c10Reply(m, rev))
+	}
+	if !resumed {
+		s.Replies = append(s.Replies, "RBad") // the session could not be resumed
+	}
+	f.drop(c)
+	f.sys.settle()
+	s.ByOk = f.sync(f.by)
+	bmsgs, bclosed := f.by.take()
+	s.By = []string{}
+	for _, m := range bmsgs {
+		if bytes.Contains(m, []byte(`"id":"hdsync`)) {
+			continue
+		}
+		s.By = append(s.By, c10Bystander(m, ""))
+	}
+	sort.Strings(s.By)
+	if bclosed {
+		s.ByOk = false
+	}
+	after, offAfter := f.digestText()
+	s.DSame = before == after
+	s.Off = offAfter - offBefore // minus the number of messages that were delivered
+	if offAfter != 0 {
+		s.Replies = append(s.Replies, "RBad") // something stayed in the queue
+	}
+	s.Api = 0
+	s.Done = true
+	if !resumed || !s.ByOk {
+		f.offPub = ""
+	}
+}
+
 func (f *c10Fix) run(s *c10Step, emitStart func()) {
+	if s.K == "resume" {
+		f.runResume(s, emitStart)
+		return
+	}
 	sf := f.ensure(s.St)
 	if s.St == 4 {
 		f.ensurePending(sf)
@@ -417,8 +544,8 @@ func (f *c10Fix) run(s *c10Step, emitStart func()) {
 		rid = "noresumeid"
 	}
 	burl := f.sys.backendUrl(0) + "/ocs/v2.php/apps/spreed/api/v1/signaling/backend"
-	subst := strings.NewReplacer(c10Sid, sid, c10Pid, pid, c10Bid, f.byPub, c10Rid, rid, c10Room, c10RoomId, c10Burl, burl, c10Bbase, f.sys.backendUrl(0))
-	rev := strings.NewReplacer(sid, c10Sid, pid, c10Pid, f.byPub, c10Bid, rid, c10Rid, burl, c10Burl, f.sys.backendUrl(0), c10Bbase, c10RoomId, c10Room)
+	subst := strings.NewReplacer(c10Sid, sid, c10Pid, pid, c10Bid, f.byPub, c10Rid, rid, c10Room, c10RoomId, c10Burl, burl, c10Bbase, f.sys.backendUrl(0), c10Oid, f.offPub)
+	rev := strings.NewReplacer(sid, c10Sid, pid, c10Pid, f.byPub, c10Bid, f.offPub, c10Oid, rid, c10Rid, burl, c10Burl, f.sys.backendUrl(0), c10Bbase, c10RoomId, c10Room)
 	data, binary := s.frame(subst)
 	if s.K == "doc" {
 		s.Orc = c10Oracles(s.Doc, subst)
@@ -426,7 +553,7 @@ func (f *c10Fix) run(s *c10Step, emitStart func()) {
 	f.sys.settle()
 	sf.conn.take()
 	f.by.take()
-	before := f.digestText()
+	before, offBefore := f.digestText()
 	emitStart()
 	mt := websocket.TextMessage
 	if binary {
@@ -462,7 +589,13 @@ func (f *c10Fix) run(s *c10Step, emitStart func()) {
 	if sess := f.sys.hub.GetSessionByPublicId(f.byPub); sess == nil || sess.GetRoom() == nil {
 		s.ByOk = false
 	}
-	s.DSame = before == f.digestText()
+	after, offAfter := f.digestText()
+	s.DSame = before == after
+	s.Off = offAfter - offBefore
+	if offBefore < 0 || offAfter < 0 {
+		s.Off = -1000 // the session without connection disappeared
+		f.offPub = ""
+	}
 	s.Api = 0
 	if s.St == 4 && f.pending != "" {
 		select {
